@@ -1,0 +1,35 @@
+//go:build verif
+
+package main
+
+import (
+	"encoding/json"
+	"os"
+)
+
+// With VERIF_C09_CONFIG set, the binary runs the configuration code of main() —
+// setupConfiguration and constructServer — on its command line, prints the expiry intervals of
+// the constructed Server as one JSON object and exits without starting the server (property
+// C09: expiry-interval-<type> > expiry-interval > default).
+func init() {
+	if os.Getenv("VERIF_C09_CONFIG") == "" {
+		return
+	}
+	out := struct {
+		Counter, Gauge, Set, Timer int64
+		Err                        string
+	}{}
+	v, _, err := setupConfiguration()
+	if err != nil {
+		out.Err = "setupConfiguration: " + err.Error()
+	} else if s, err := constructServer(v); err != nil {
+		out.Err = "constructServer: " + err.Error()
+	} else {
+		out.Counter = int64(s.ExpiryIntervalCounter)
+		out.Gauge = int64(s.ExpiryIntervalGauge)
+		out.Set = int64(s.ExpiryIntervalSet)
+		out.Timer = int64(s.ExpiryIntervalTimer)
+	}
+	_ = json.NewEncoder(os.Stdout).Encode(out)
+	os.Exit(0)
+}
